@@ -87,3 +87,91 @@ def truncation_adjoint_fails(case):
                 return 'truncation-adjoint: the first %d adjoint coefficients of input %d computed with D=%d differ from the sweep with D\'=%d (max diff %s)' % (
                     Dp, i, D, Dp, maxdiff(a[:Dp], b))
     return None
+
+
+# ---------------------------------------------------------------------------------------------
+# the same two relations for single registered operations (ops.py): the operation is recorded with
+# Function-wrapped operands; generators in ops.py give every direction its own base point, and for
+# the LU family its own pivot sequence
+def op_sweep(case, ybar_of):
+    """returns ([y data], [xbar data of the UTPM operands]) or None when the operation cannot be recorded"""
+    import ops
+    from algopy import CGraph, Function
+    with np.errstate(all='ignore'):
+        cg = CGraph()
+        raw = ops.build_args(case)
+        fargs = [Function(a) if isinstance(a, UTPM) else a for a in raw]
+        r = ops.OPS[case['op']]['call'](fargs)
+        outs = [o for o in (r if isinstance(r, (tuple, list)) else [r]) if isinstance(o, Function) and isinstance(o.x, UTPM)]
+        cg.trace_off()
+        if not outs:
+            return None
+        cg.independentFunctionList = [f for f in fargs if isinstance(f, Function)]
+        cg.dependentFunctionList = outs
+        ybs = [ybar_of(i, o.x.data.shape) for i, o in enumerate(outs)]
+        cg.pullback([UTPM(yb.copy()) for yb in ybs])
+    return [np.array(o.x.data) for o in outs], [np.array(f.xbar.data) for f in cg.independentFunctionList]
+
+
+def _op_seed(case, i, shape):
+    r = np.random.RandomState((case.get('seed', 0) + 7919 * i) % (1 << 31))
+    yb = np.round(r.uniform(-1, 1, size=shape) * 8) / 8
+    yb[yb == 0] = 0.5
+    return yb
+
+
+def _op_full(case):
+    try:
+        full = op_sweep(case, lambda i, shp: _op_seed(case, i, shp))
+    except Exception:
+        return None
+    if full is None or not all(np.all(np.isfinite(b)) for b in full[1]):
+        return None
+    return full
+
+
+def op_direction_adjoint_fails(case):
+    import ops
+    full = _op_full(case)
+    if full is None:
+        return None
+    ys, xbars = full
+    P = case['P']
+    for p in range(P):
+        sub = ops.map_U(case, lambda v: v[:, p:p + 1])
+        sub['P'] = 1
+        try:
+            one = op_sweep(sub, lambda i, shp: _op_seed(case, i, ys[i].shape)[:, p:p + 1])
+        except Exception as ex:
+            return 'direction-adjoint-op-exception-%s: the reverse sweep of direction %d alone raised %s' % (case['op'], p, type(ex).__name__)
+        for i, (a, b) in enumerate(zip(xbars, one[1])):
+            if not close(a[:, p], b[:, 0], 1e-8):
+                return 'direction-adjoint-op-%s: the adjoint of operand %d in direction %d of a %d-direction reverse sweep differs from the sweep of direction %d alone (max diff %s)' % (
+                    case['op'], i, p, P, p, maxdiff(a[:, p], b[:, 0]))
+    return None
+
+
+def op_truncation_adjoint_fails(case):
+    import ops
+    full = _op_full(case)
+    if full is None:
+        return None
+    ys, xbars = full
+    D = case['D']
+    for Dp in range(1, D):
+        sub = ops.map_U(case, lambda v: v[:Dp])
+        sub['D'] = Dp
+        try:
+            part = op_sweep(sub, lambda i, shp: _op_seed(case, i, ys[i].shape)[:Dp])
+        except Exception as ex:
+            return 'truncation-adjoint-op-exception-%s: the reverse sweep with D\'=%d raised %s' % (case['op'], Dp, type(ex).__name__)
+        for i, (a, b) in enumerate(zip(xbars, part[1])):
+            if not close(a[:Dp], b, 1e-8):
+                return 'truncation-adjoint-op-%s: the first %d adjoint coefficients of operand %d computed with D=%d differ from the sweep with D\'=%d (max diff %s)' % (
+                    case['op'], Dp, i, D, Dp, maxdiff(a[:Dp], b))
+    return None
+
+
+def reversible_ops():
+    import ops
+    return [n for n in sorted(ops.OPS) if not n.startswith('ibin') and 'no-trunc' not in ops.OPS[n]['tags']]
